@@ -59,7 +59,17 @@ func runReplayTest(repo, testSrc string, extra ...string) (res replayResult) {
 	ov, _ := json.Marshal(map[string]any{"Replace": map[string]string{filepath.Join(abs, "zz_verif_replay_test.go"): tf}})
 	ovf := filepath.Join(dir, "overlay.json")
 	os.WriteFile(ovf, ov, 0o644)
-	args := append([]string{"test", "-overlay", ovf, "-vet=off", "-count=1", "-timeout", "120s", "-run", "^TestVerifReplay$"}, extra...)
+	args := []string{"test", "-overlay", ovf, "-vet=off", "-count=1", "-timeout", "600s"}
+	hasRun := false
+	for _, e := range extra {
+		if e == "-run" {
+			hasRun = true
+		}
+	}
+	if !hasRun {
+		args = append(args, "-run", "^TestVerifReplay$")
+	}
+	args = append(args, extra...)
 	args = append(args, ".")
 	cmd := exec.Command("go", args...)
 	cmd.Dir = abs
@@ -109,6 +119,9 @@ func cmdReplay(args []string) {
 	r := runReplayTest(*repo, rec.Replay.Test, rec.Replay.Extra...)
 	if rec.Replay.Marker != "" {
 		r.Reproduced = strings.Contains(r.full, "DATA RACE") && strings.Contains(r.full, rec.Replay.Marker)
+	}
+	if strings.Contains(r.full, "BOUNDED-VIOLATION") {
+		r.Reproduced = true
 	}
 	fmt.Println(r.Command)
 	fmt.Println(r.Output)
